@@ -431,6 +431,13 @@ pub(crate) fn uri_redirect_target(uri: &Uri, options: &host::Options) -> Option<
     Some(Uri::from_parts(uri).unwrap())
 }
 
+/// The [`Uri`] of the request as the client sent it.
+///
+/// Stored in [`Request::extensions`] when a [`Prime`] extension rewrites the request's [`Uri`]
+/// (e.g. `/dir/` to `/dir/index.html`), so later extensions can still see what was requested.
+#[derive(Debug, Clone)]
+pub struct RequestedUri(pub Uri);
+
 /// Contains all extensions.
 /// See [kvarn.org on extensions](https://kvarn.org/extensions/) for more info.
 #[must_use]
@@ -845,6 +852,10 @@ impl Extensions {
                 if prime.path().starts_with("/./") {
                     uri = Some(prime);
                 } else {
+                    if request.extensions().get::<RequestedUri>().is_none() {
+                        let requested = RequestedUri(request.uri().clone());
+                        request.extensions_mut().insert(requested);
+                    }
                     *request.uri_mut() = prime;
                 }
             }
